@@ -1,7 +1,9 @@
 import RreModel.Proto
 import RreModel.C13.Spec
 /-
-Driver for C13.  case  := `<W> <L> <ts,ts,...>`   W ∈ B<delay> | M | C ;  L ∈ D | A<max> | S | R
+Driver for C13.  case  := `<W> <L> <ev,ev,...>`   W ∈ B<delay> | M | C | P<interval> ;  L ∈ D | A<max> | S | R
+                 ev    := <ts> | <ts>@<now>   (now = reading of the generator's processing-time clock when the event
+                          is offered, default 0; the generator is created at reading 0)
                  obs   := step;step;...   step := wm/hist/events/side/late,dropped,allowed,sidecount
   drv_c13 model   : case            ↦ obs predicted by the model
   drv_c13 oracle  : case | obs      ↦ `ok <tags>` / `fail <clause>` (Spec.runOk on the observations)
@@ -12,7 +14,18 @@ def parseW (s : String) : Option WmStrategy :=
   if s = "M" then some .monotonic
   else if s = "C" then some .custom
   else if s.startsWith "B" then (s.drop 1).toNat?.map .bounded
+  else if s.startsWith "P" then (s.drop 1).toNat?.map .periodic
   else none
+
+/-- `<ts>` or `<ts>@<now>` -/
+def parseEvTok (s : String) : Option (Nat × Nat) :=
+  match s.splitOn "@" with
+  | [t] => t.toNat?.map (·, 0)
+  | [t, n] => do pure (← t.toNat?, ← n.toNat?)
+  | _ => none
+
+def parseEvs (s : String) : Option (List (Nat × Nat)) :=
+  if s = "-" then some [] else (s.splitOn ",").mapM parseEvTok
 
 def parseL (s : String) : Option LateStrategy :=
   if s = "D" then some .drop
@@ -26,8 +39,8 @@ def parseCase (line : String) : Option (WmStrategy × LateStrategy × List Ev) :
   | [w, l, ts] => do
     let w ← parseW w
     let l ← parseL l
-    let ts ← parseNats? ts
-    pure (w, l, (List.range ts.length).zip ts |>.map fun (i, t) => ⟨i, t⟩)
+    let ts ← parseEvs ts
+    pure (w, l, (List.range ts.length).zip ts |>.map fun (i, (t, n)) => ⟨i, t, n⟩)
   | _ => none
 
 def showObs (o : Obs) : String :=
@@ -73,6 +86,7 @@ def oracleLine (line : String) : String :=
         let tags := (if last.late > 0 then ["late"] else []) ++ (if last.dropped > 0 then ["dropped"] else [])
           ++ (if last.allowed > 0 then ["allowed"] else []) ++ (if last.sideCount > 0 then ["side"] else [])
           ++ (if last.history.length ≥ 2 then ["wm_advanced_twice"] else [])
+          ++ (match w with | .periodic _ => ["periodic"] | .bounded _ => ["bounded"] | .monotonic => ["monotonic"] | .custom => ["custom"])
           ++ (if last.late > 0 then ["nontrivial"] else [])
         joinSp ("ok" :: tags)
       else
